@@ -6,13 +6,17 @@
    Order, proved: the commands of one run are applied in the order queued, each in-line delivery completing (with its
    whole subtree) before the next command is applied; tickets are drawn in application order; a delivery to a busy
    target is appended to the back of the buffer; the replay after the target's run goes front to back and keeps the
-   relative order of everything it does not run.
+   relative order of everything it does not run.  Over whole executions (PrepSpec): the deliveries queued by one run are
+   parked in the order queued, each before anything it causes, and tickets increase strictly in parking order in every
+   reachable state — so the k-th delivery sent holds the k-th smallest ticket of them, and (C03) each run reads exactly
+   the entries parked under the ticket of the command that caused it.
    NOT proved as one statement: "the k-th delivery from run r to target t is the k-th of them to start" over whole
    programs, with nested replays interleaving deliveries from other runs.  That is compared by the correspondence (order
    and readers projections on the recursion profile: bursts of 2-4 deliveries of mixed kinds to one busy or idle target)
    and checked on implementation logs by the m_order monitor. *)
 From Cobweb Require Import Machine.
-From CobwebProofs Require Import Closed RunnerInv OnceInv TicketInv LogSpec OrderSpec TopLevel.
+From Coq Require Import Sorting.Sorted.
+From CobwebProofs Require Import Closed RunnerInv OnceInv TicketInv LogSpec OrderSpec PrepSpec TopLevel.
 
 Theorem each_delivery_carries_its_own_data : forall (P : program) (fuel : nat), run P fuel <> Stuck 5.
 Proof. exact readers_expose_own_claim. Qed.
@@ -37,6 +41,15 @@ Theorem deliveries_to_other_targets_keep_their_order_partial : forall (P : progr
   (length pending < f)%nat -> exec P f (IReplay t pending kept) w = Ok (w <| buffer ::= fun b => b ++ kept ++ pending |>).
 Proof. exact replay_keeps_the_others_in_order. Qed.
 
+Theorem deliveries_are_parked_in_the_order_sent : forall (P : program) cs f w w', psorted w -> exec P f (IApplyList cs) w = Ok w' ->
+  exists bs, g_prep w' = g_prep w ++ concat bs /\ Forall2 own_head cs bs /\ ticket_ctr w <= ticket_ctr w' /\ psorted w'.
+Proof. exact command_list_parks_in_order. Qed.
+Theorem a_delivery_is_parked_under_the_next_ticket_before_anything_it_causes : forall (P : program) f c w w', psorted w -> exec P f (IApply c) w = Ok w' ->
+  exists b, g_prep w' = g_prep w ++ b /\ own_block w c b /\ ticket_ctr w <= ticket_ctr w' /\ psorted w'.
+Proof. exact applied_command_parks_first. Qed.
+Theorem tickets_increase_in_parking_order : forall (P : program) fuel w', run P fuel = Ok w' -> StronglySorted N.lt (ptickets (g_prep w')).
+Proof. exact parking_order_is_ticket_order. Qed.
+
 (* non-vacuity: while 101 runs it sends itself four system events (all postponed): they are read in the order sent *)
 Definition ex_prog : program :=
   mkProgram [mkSys 101 Plain false true None]
@@ -47,6 +60,12 @@ Example ex_runs : exists w', run ex_prog 400 = Ok w'
   /\ flat_map (fun e => match e with EvRun 101 _ _ sm => map snd (sm_s sm) | _ => [] end) (log w') = [1; 2; 3; 4].
 Proof. eexists. split; [vm_compute; reflexivity|]. vm_compute. reflexivity. Qed.
 
+(* non-vacuity of the parking theorems: the initial state is sorted, and the example run parks under tickets 1, 2, ... *)
+Example ex_sorted : psorted (install_static ex_prog init_world).
+Proof. exact (psorted_init ex_prog). Qed.
+Example ex_parked : exists w', run ex_prog 400 = Ok w' /\ ptickets (g_prep w') = [1; 2; 3; 4] /\ ctickets (g_claim w') = [1; 2; 3; 4].
+Proof. eexists. split; [vm_compute; reflexivity|]. vm_compute. split; reflexivity. Qed.
+
 Print Assumptions each_delivery_carries_its_own_data.
 Print Assumptions own_data_means_the_entries_of_one_command.
 Print Assumptions deliveries_are_applied_in_the_order_sent_partial.
@@ -54,3 +73,6 @@ Print Assumptions tickets_are_drawn_in_application_order_partial.
 Print Assumptions busy_target_deliveries_queue_in_order_partial.
 Print Assumptions replay_is_front_to_back_partial.
 Print Assumptions deliveries_to_other_targets_keep_their_order_partial.
+Print Assumptions deliveries_are_parked_in_the_order_sent.
+Print Assumptions a_delivery_is_parked_under_the_next_ticket_before_anything_it_causes.
+Print Assumptions tickets_increase_in_parking_order.
